@@ -187,9 +187,10 @@ def run(ctx):
                          "checks/c14.py (generator, Coq term printer, oracle)", "Go's reflect package behaves as Model/FnCheck.v's view of function types"]
     # identity by function NAME: functions whose runtime names differ only by the escaping of a dot in the import
     # path, instantiations of a generic function (known finding F23 is C01's) - probes of harness/depsrun
-    go_build_harness(ctx, "depsrun")
+    import depslib
+    depslib.build_depsrun(ctx)      # with the calls harness/apiprobe generates when the tree exports functions outside the known API
     from checks.c01 import contention
-    contention(ctx, parts=("escaped", "custom", "ambient"), rounds=50)
+    contention(ctx, parts=("escaped", "custom", "ambient", "api"), rounds=50)
     binp = go_build_harness(ctx, "unitrun")
     sigs = json.load(open(os.path.join(ctx.tmp, "src_unitrun", "pool.json")))
     n = 3000 if ctx.quick else 60000
@@ -204,6 +205,9 @@ def run(ctx):
     for c in cases:
         if rng.random() < 0.2:
             c["ctxdone"] = True      # Run is handed a context that is already cancelled: same call, once, same error
+        elif rng.random() < 0.04:
+            c["ctxmid"] = True       # ... cancelled WHILE the function runs: Run returns the function's own result, after it finished
+        c["verbose"] = rng.random() < 0.5     # verbose mode changes nothing about the call
     ctx.coverage["generic_instantiation_cases"] = sum(1 for c in cases if c["fn"] >= gbase)
     if ctx.replay and ctx.replay.get("case"):
         cases = [ctx.replay["case"]] + cases[:50]
